@@ -1,5 +1,5 @@
 From Sigtools.Model Require Import Base Bind Algebra Annot Visitor Discover.
-From Sigtools.Proofs Require Import Annot AnnotTwins AnnotWraps.
+From Sigtools.Proofs Require Import Annot AnnotTwins AnnotWraps AnnotDiscover.
 Open Scope N_scope.
 
 Theorem C11_carried_merge : forall s0 ss r, merge (s0 :: ss) = Ok r ->
@@ -204,4 +204,19 @@ Print Assumptions C11_wraps_reports_wrapper_context.
 Theorem C11_wraps_globals_refuted : exists (g : genv) (wrapped wrapper : N) (rps : list rawparam) (rr : option N) (p : param) (a : N), (exists raw : N, g wrapped raw <> g wrapper raw) /\ In p (params (retrieve_through (Some true) wrapper rps rr)) /\ pann p = Some a /\ source_value g (puann p) <> denotes g wrapped a /\ source_value g (uret (retrieve_through (Some true) wrapper rps rr)) <> match rr with | Some r => denotes g wrapped r | None => None end.
 Proof. exact @AnnotWraps.wraps_globals_refuted. Qed.
 Print Assumptions C11_wraps_globals_refuted.
+
+
+(* ---- annotate() on a plain forwarding function is lost under automatic discovery (known finding
+   C11:annotate-lost-in-discovery; Proofs/AnnotDiscover.v) ---- *)
+Theorem C11_annotate_lost_in_discovery_refuted : exists (g : genv) (own plain : sigT) (calls : list callinfo) (v r : N), annotate (Some (Some r)) [(1, Some v)] own = Ok plain /\ ann_of g 1 plain = Some v /\ source_value g (uret plain) = Some r /\ ann_of g 1 (discover own plain true calls) = None /\ source_value g (uret (discover own plain true calls)) = None /\ map pname (params (discover own plain true calls)) = [1; 14; 15; 16].
+Proof. exact @AnnotDiscover.annotate_lost_in_discovery_refuted. Qed.
+Print Assumptions C11_annotate_lost_in_discovery_refuted.
+
+Theorem C11_annotate_kept_by_explicit_forwards : exists (g : genv) (plain r : sigT), annotate None [(1, Some 7)] own_sig = Ok plain /\ forwards plain callee_sig 0 [] false false true true false = Ok r /\ ann_of g 1 r = Some 7.
+Proof. exact @AnnotDiscover.annotate_kept_by_explicit_forwards. Qed.
+Print Assumptions C11_annotate_kept_by_explicit_forwards.
+
+Theorem C11_discovery_ignores_annotated : forall (own plain plain' : sigT) (ha : bool) (calls : list callinfo) (r : sigT), autoforwards own ha calls = Some r -> discover own plain ha calls = discover own plain' ha calls.
+Proof. exact @AnnotDiscover.discovery_ignores_annotated. Qed.
+Print Assumptions C11_discovery_ignores_annotated.
 
